@@ -14,7 +14,9 @@ class Facts:
             # local wins over re-exported duplicates
             if a['path'] not in self.adts or a['local']:
                 self.adts[a['path']] = a
-        self.hir = {h['path']: h for h in self._load('hir.json')}
+        allh = self._load('hir.json')
+        self.hir = {h['path']: h for h in allh if h.get('item') != 'const'}
+        self.consts = {h['path']: h for h in allh if h.get('item') == 'const'}
         self.mir = {}
         for m in self._load('mir.json'):
             self.mir[m['path']] = m
